@@ -518,10 +518,18 @@ func (fc *FnCtx) doInvoke(cc *ssa.CallCommon, args []Val, pos token.Pos, resT ty
 	recv := fc.operand(cc.Value)
 	it := cc.Value.Type()
 	mname := cc.Method.Name()
-	if fc.specDepth > 0 && fc.specDepth < 3 && len(args) == 0 && cc.Signature().Results().Len() == 1 {
-		// inside a specification-level method evaluation: stay deterministic (case split over the dynamic types)
-		env := &Env{fc: fc, pkg: fc.pkg, vars: map[string]Val{}, bound: map[string]Val{}, st: fc.cur, old: fc.cur}
-		return env.specMethod(recv, mname)
+	if fc.specDepth > 0 && len(args) == 0 && cc.Signature().Results().Len() == 1 {
+		// inside a specification-level method evaluation (a wrapper type forwarding to an embedded interface):
+		// do not expand further; the value is an uninterpreted function of the embedded value (deterministic, otherwise
+		// unconstrained: contracts exclude wrapper types where it matters)
+		ls := layout(resT)
+		out := Val{T: resT, L: make([]string, len(ls))}
+		for k, lf := range ls {
+			fname := qsym(fmt.Sprintf("nested!%s!%s!%d", typeKey(it), mname, k))
+			fc.declareFunOnce(fname, "("+SortTag+" (_ BitVec 64)) "+lf.Sort)
+			out.L[k] = app(fname, recv.L[0], recv.L[1])
+		}
+		return out
 	}
 	fc.oblige("nil", "invoke", not(eq(recv.L[0], bvLit(0, 16))), pos, "method call on nil interface")
 	ikey := fc.eng.ifaceMethodKey(it, mname)
@@ -602,9 +610,59 @@ func (fc *FnCtx) doInvoke2(cc *ssa.CallCommon, recv Val, it types.Type, mname, i
 	fc.cur = post
 	res := fc.freshValWF("r_"+mname, resT)
 	var known []string
-	for _, cd := range cands {
+	// pure straight-line implementations first: the result is a case-split term over the dynamic type
+	// (zero-argument getters only; two calls on the same receiver and heap yield syntactically equal terms)
+	isPure := make([]bool, len(cands))
+	if len(args) == 0 {
+		for i, cd := range cands {
+			key := fc.eng.fnName(cd.fn)
+			if fc.eng.contracts[key] != nil {
+				continue
+			}
+			if fc.eng.inlineable(cd.fn) && fc.eng.summary(cd.fn).empty() && fc.inlineDepth < 4 {
+				isPure[i] = true
+			}
+		}
+		anyPure := false
+		for _, p := range isPure {
+			anyPure = anyPure || p
+		}
+		if anyPure {
+			ls := layout(resT)
+			base := Val{T: resT, L: make([]string, len(ls))}
+			copy(base.L, res.L)
+			for i, cd := range cands {
+				if !isPure[i] {
+					continue
+				}
+				key := fc.eng.fnName(cd.fn)
+				cond := eq(recv.L[0], fc.tagOf(cd.t))
+				rv := fc.unboxIface(pre, recv, cd.t)
+				sub := pre.derive()
+				sub.assume(cond)
+				fc.cur = sub
+				nob := len(fc.obls)
+				fc.specDepth++
+				r := fc.inline(cd.fn, []Val{rv}, nil, pos, resT)
+				fc.specDepth--
+				// panic-freedom of the implementation is its own obligation, not this call site's
+				fc.obls = fc.obls[:nob]
+				fc.noteTrusted("implementation " + key + " assumed panic-free under its implicit precondition (non-nil receiver)")
+				fc.cur = post
+				for k := range r.L {
+					base.L[k] = ite(cond, r.L[k], base.L[k])
+				}
+			}
+			res = fc.nameVal(fc.fresh("disp_"+mname), base)
+			post.assume(fc.wfFacts(res))
+		}
+	}
+	for i, cd := range cands {
 		cond := eq(recv.L[0], fc.tagOf(cd.t))
 		known = append(known, cond)
+		if isPure[i] {
+			continue
+		}
 		key := fc.eng.fnName(cd.fn)
 		rv := fc.unboxIface(pre, recv, cd.t)
 		cargs := append([]Val{rv}, args...)
@@ -628,13 +686,14 @@ func (fc *FnCtx) doInvoke2(cc *ssa.CallCommon, recv Val, it types.Type, mname, i
 			continue
 		}
 		if fc.eng.inlineable(cd.fn) && fc.eng.summary(cd.fn).empty() && fc.inlineDepth < 4 {
-			// pure straight-line method: inline under the case condition
+			// pure straight-line method with arguments: inline under the case condition
 			sub := pre.derive()
 			sub.assume(cond)
 			fc.cur = sub
 			nob := len(fc.obls)
+			fc.specDepth++
 			r := fc.inline(cd.fn, cargs, nil, pos, resT)
-			// panic-freedom of the implementation is its own obligation, not this call site's
+			fc.specDepth--
 			fc.obls = fc.obls[:nob]
 			fc.noteTrusted("implementation " + key + " assumed panic-free under its implicit precondition (non-nil receiver)")
 			fc.cur = post
@@ -685,6 +744,15 @@ func (fc *FnCtx) applyIfaceContract(c *Contract, cc *ssa.CallCommon, recv Val, a
 				ns.All = true
 			case strings.HasPrefix(item, "ghost."):
 				e2ghostNames(strings.TrimPrefix(item, "ghost."), ns)
+			case strings.HasPrefix(item, "elems "):
+				e, err := parseExprSrc(strings.TrimPrefix(item, "elems "))
+				if err != nil {
+					userErr("modifies item %s: %v", item, err)
+				}
+				t := env.resolveType(e)
+				for k := range layout(t) {
+					ns.Add(fmt.Sprintf("E|%s|%d", typeKey(t), k))
+				}
 			default:
 				fc.eng.modifiesItemNames(env, item, ns)
 			}
